@@ -49,7 +49,7 @@ CRDInstalls(reps, drys, nss, skips) ==
 MenuLedger == Installs({"cA", "cB"}, B, B, F, F, F) \cup Upgrades({"cA", "cB"}, B, B, {0, 1, 2}, F, F, F)
               \cup Rollbacks({0, 1, 2}, {0, 2}, F, F, F) \cup Uninstalls(B, F, F)
 \* cluster family (C02): growing / shrinking / changing / keep-toggling manifests
-MenuCluster == Installs({"cA", "cB", "cC", "cK"}, B, F, F, B, F) \cup Upgrades({"cA", "cB", "cC", "cK"}, F, F, {0}, F, B, F)
+MenuCluster == Installs({"cA", "cB", "cC", "cK"}, B, F, F, B, F) \cup Upgrades({"cA", "cB", "cC", "cK", "cV"}, F, F, {0}, F, B, F)
                \cup Rollbacks({0, 1}, {0}, F, F, F) \cup Uninstalls(B, F, F)
 \* fault family (C03): atomic x cleanup x no-hooks
 MenuFault == Installs({"cA", "cH"}, F, B, B, F, F) \cup Upgrades({"cB", "cI", "cC"}, B, B, {0}, B, F, F)
@@ -60,9 +60,10 @@ MenuDry == Installs({"cA", "cH"}, B, B, B, B, B) \cup CRDInstalls(B, B, B, B) \c
            \cup {[U("install", "cA") EXCEPT !.dry = TRUE, !.clientOnly = TRUE],
                  [U("install", "cH") EXCEPT !.dry = TRUE, !.clientOnly = TRUE, !.replace = TRUE]}
 \* ownership family (C07)
-MenuOwn == Installs({"cA", "cB"}, B, F, F, B, F) \cup Upgrades({"cB", "cC"}, F, F, {0}, F, B, F) \cup Uninstalls(F, F, F)
+MenuOwn == Installs({"cA", "cB", "cL"}, B, F, F, B, F) \cup Upgrades({"cB", "cC", "cL", "cA"}, F, F, {0}, F, B, F)
+           \cup Uninstalls(F, F, F) \cup Rollbacks({0}, {0}, F, F, F)
 \* hooks family (C12)
-MenuHooks == Installs({"cH", "cI"}, B, F, B, F, F) \cup Upgrades({"cH", "cI"}, F, F, {0}, B, F, F)
+MenuHooks == Installs({"cH", "cI", "cJ"}, B, B, B, F, F) \cup Upgrades({"cH", "cI", "cJ"}, B, F, {0}, B, F, F)
              \cup Rollbacks({0, 1}, {0}, B, F, F) \cup Uninstalls(B, B, F)
 \* concurrency family (C09): plain installs and upgrades racing on one release name
 MenuConc == Installs({"cA", "cB"}, F, F, F, F, F) \cup Upgrades({"cB", "cC"}, F, F, {0}, F, F, F)
@@ -82,15 +83,16 @@ XFault == Installs({"cA"}, F, B, F, F, F) \cup Upgrades({"cB"}, B, B, {0}, F, F,
 XDry == Installs({"cH"}, B, F, F, F, B) \cup CRDInstalls(F, B, B, B) \cup Upgrades({"cI"}, F, F, {0, 1}, F, F, B)
         \cup Rollbacks({0}, {0, 1}, F, F, B) \cup Uninstalls(B, F, B)
         \cup {[U("install", "cH") EXCEPT !.dry = TRUE, !.clientOnly = TRUE]}
-XOwn == Installs({"cA", "cB"}, F, F, F, B, F) \cup Upgrades({"cB"}, F, F, {0}, F, B, F)
-XHooks == Installs({"cH", "cI"}, F, F, B, F, F) \cup Upgrades({"cI", "cH"}, F, F, {0}, F, F, F)
+XOwn == Installs({"cA", "cB"}, F, F, F, B, F) \cup Upgrades({"cB", "cL"}, F, F, {0}, F, B, F)
+XHooks == Installs({"cH", "cI", "cJ"}, F, F, B, F, F) \cup Upgrades({"cI", "cH", "cJ"}, F, F, {0}, F, F, F)
           \cup Rollbacks({0}, {0}, F, F, F) \cup Uninstalls(B, F, F)
 
 EditsNone == {}
 EditsX == {[kind |-> "edit", res |-> "r1", field |-> "f1", value |-> "z"],
            [kind |-> "edit", res |-> "r3", field |-> "f2", value |-> "z"],
            [kind |-> "oobdel", res |-> "r2", field |-> "", value |-> ""],
-           [kind |-> "oobkeep", res |-> "r2", field |-> "", value |-> ""]}
+           [kind |-> "oobkeep", res |-> "r2", field |-> "", value |-> ""],
+           [kind |-> "oobunkeep", res |-> "r1", field |-> "", value |-> ""]}
 PreOwnX == {[Empty EXCEPT !["by1"] = By, !["r3"] = Obj(own, "q")] : own \in {"none", "othername", "otherns", "partial", "me"}}
            \cup {[Empty EXCEPT !["by1"] = By, !["r1"] = Obj("none", "q")]} \cup PreBy
 EditsSome == {[kind |-> "edit", res |-> "r1", field |-> "f1", value |-> "z"],
@@ -100,8 +102,11 @@ EditsSome == {[kind |-> "edit", res |-> "r1", field |-> "f1", value |-> "z"],
               [kind |-> "oobdel", res |-> "r2", field |-> "", value |-> ""],
               [kind |-> "oobdel", res |-> "r1", field |-> "", value |-> ""],
               [kind |-> "oobkeep", res |-> "r2", field |-> "", value |-> ""],
-              [kind |-> "oobkeep", res |-> "r3", field |-> "", value |-> ""]}
+              [kind |-> "oobkeep", res |-> "r3", field |-> "", value |-> ""],
+              [kind |-> "oobunkeep", res |-> "r1", field |-> "", value |-> ""]}
 
+EditsNew == {[kind |-> "oobnew", res |-> r, field |-> "", value |-> own] :
+                r \in {"r3", "r2"}, own \in {"none", "othername", "me"}}
 GuardTrue(m) == TRUE
 \* simulation bias: on an empty ledger start with an install (other operations just fail at once)
 GuardBias(m) == (Used = {}) => (m.kind = "install" \/ (m.kind # "install" /\ m = U(m.kind, m.chart)))
@@ -182,5 +187,5 @@ Inv_C12_DeletedByPolicy == Ends(LAMBDA p : (~SubOpM(p) /\ ~HookFaultM(p)) => (C1
 Inv_C12_PreHookGate  == Ends(LAMBDA p : ~HookFaultM(p) => C12_PreHookGate(op[p].log, DefsM(p), ManIdsM(p), op[p].u))
 Inv_C12_PostHookFails == Ends(LAMBDA p : C12_PostHookFails(op[p].log, DefsM(p), op[p].result = "ok"))
 Inv_C12_NotInManifest == C12_NotInManifest(store)
-Inv_C12_Disabled     == Ends(LAMBDA p : C12_Disabled(op[p].log, DOMAIN DefsM(p), op[p].u))
+Inv_C12_Disabled     == Ends(LAMBDA p : C12_Disabled(op[p].log, HookIdsIn(pre[p].store) \cup HookIdsIn(store) \cup DOMAIN DefsM(p), op[p].u))
 =============================================================================
